@@ -550,6 +550,7 @@ func init() {
 	}
 	gens["C17"] = func(tier string, r *rng, emit func(string)) {
 		genXKinds("C17", emit)
+		genXKinds("C17fn", emit)
 		maskPredSweep(emit)
 		for _, dt := range []string{"i", "i8", "i16", "i32", "i64", "u", "u8", "u16", "u32", "u64", "f32", "f64", "c64", "c128"} {
 			for _, op := range valopAll {
